@@ -17,12 +17,15 @@ def task(seed):
     from phyclone.utils.dev import clear_proposal_dist_caches
 
     r = random.Random(seed)
-    sizes = {n: r.choice([1, 2, 3, 16, "shipped", "shipped"]) for n in NAMES}
-    if r.random() < 0.1:
+    sizes = {n: r.choice([1, 2, 3, 16, "shipped", "as_shipped"]) for n in NAMES}
+    u = r.random()
+    if u < 0.1:
         sizes = {n: "off" for n in NAMES}
-    grid = r.choice([5, 11, 21])
-    samples = r.choice([1, 2])
-    n = r.choice([2, 3, 4, 5, 6, 8])
+    elif u < 0.3:
+        sizes = {n: "as_shipped" for n in NAMES}  # the repository's own wrapper objects, untouched
+    grid = r.choice([5, 11, 21, 21, 40, 101])
+    samples = r.choice([1, 2, 3])
+    n = r.choice([2, 3, 4, 5, 6, 8, 10, 12])
     outlier_prob = r.choice([0.0, 0.0, 0.05, 0.3])
     data = bridge.make_data(r, n, samples=samples, grid=grid, style=r.choice(["gauss", "peaked", "flat"]), outlier_prob=outlier_prob)
     n_chains = r.choice([1, 1, 2])
@@ -41,7 +44,7 @@ def task(seed):
             chains.append(dict(g=g, td=td, samplers=samplers, tree=Tree.get_single_node_tree(data)))
         if n_chains > 1:
             fired["interleaved_kernels"] = 1
-        for sweep in range(r.choice([2, 3, 5])):
+        for sweep in range(r.choice([2, 3, 5]) if r.random() < 0.97 else 60):
             for ch in chains:
                 s = ch["samplers"]
                 if r.random() < 0.5:
@@ -129,7 +132,7 @@ def run(ctx):
             ctx.probe("eviction_" + n, evict[n])
     ctx.cov["rule"] = ("seeded sampler workloads (burn-in SMC, particle Gibbs with three proposals, subtree updates, data-point and prune-regraft "
                        "moves, concentration updates; 2-8 data points; 1-2 interleaved kernels per process; one grid shape per process) with the five "
-                       "memoised entry points re-wrapped at a per-run cache size in {1,2,3,16,shipped,off}, caches cleared at random points and "
+                       "memoised entry points re-wrapped at a per-run cache size in {1,2,3,16,shipped,off} or left exactly as the repository decorated them, caches cleared at random points and "
                        "alpha changed between sweeps WITHOUT a clear; one evaluation = one shadowed call compared with the unmemoised original at "
                        "that moment; distinct = distinct (entry point, support size, parent absent) proposal signatures summed over workloads")
     ctx.sample({"workload_seed": res[0]["seed"], "sizes": res[0]["sizes"], "calls": res[0]["calls"]})
